@@ -183,31 +183,45 @@ def targets():
 def configs(tier):
     q = tier == "quick"
     c = []
-    L = 2 if q else 3
     tg = targets()
-    # (i) inputs: every session, one raw client, released before / in the middle of / after the traffic
-    for i, t in enumerate(tg):
-        rels = (3,) if q else (0, 3, 99)
-        for rel in rels:
-            c.append(("%s,c0=r*%d,alpha=%s,rel=%d" % (t, L, ALPHA, rel), 0 if q else (1 if L == 2 else 0), "asan"))
-    # every session of the client library
+    core = [t for t in tg if ("tp=tcp" in t and "target=b" not in t) or ("tp=ux," in t and "target=b,big=1" in t) or
+            ("tp=uxf" in t and "target=srv,big=1" in t) or ("tp=tls" in t and ("names=70" in t or "san5" in t or "san70" in t))]
+    # (i) inputs: every session of one raw client, served when the traffic is over (one schedule per session)
     for t in tg:
-        if q and ("tp=uxf" in t or "target=b" in t):
-            continue
-        c.append(("%s,c0=x*%d,rel=3" % (t, 3), 0 if q else 1, "asan"))
-    # (ii) schedules: concurrent sessions x interleavings
-    D = 2 if q else 3
-    sched = [
-        ("tp=tcp,target=a", "c0=r:ga,c1=r:kg,c2=r:xn"),
-        ("tp=tcp,target=srv", "c0=r:gg,c1=x:ag,c2=r:tX"),
-        ("tp=ux,target=b,big=1", "c0=r:ag,c1=r:Xm,c2=x:ga"),
-        ("tp=tls,target=a,big=0,scert=%s,ccert=%s" % (cert("san5"), cert("small")), "c0=r:gl,c1=x:kg,c2=r:zg"),
-        ("tp=tls,target=srv,big=1,names=70,scert=%s,ccert=%s" % (cert("rsa"), cert("rsa")), "c0=r:gg,c1=r:bk"),
-    ]
-    for t, cl in sched:
-        for extra in ("rel=0", "rel=3,pumpn=256", "rel=2,svc=none"):
-            tls = "tp=tls" in t
-            c.append(("%s,%s,%s" % (t, cl, extra), D - 1 if tls else D, "asan"))
+        L = (2 if t in core else 1) if q else (3 if t in core else 2)
+        c.append(("%s,c0=r*%d,alpha=%s,rel=99" % (t, L, ALPHA), 0, "asan"))
+    # ... and released in the middle of the traffic (all orders the blocked tasks allow)
+    mid = [t for t in core if "tp=tcp" in t or "san5" in t or ("names=70" in t and "target=srv" in t)]
+    for t in mid:
+        c.append(("%s,c0=r*%d,alpha=%s,rel=3" % (t, 1 if q else 2, ALPHA), 0, "asan"))
+    # every session of the client library
+    for t in (core if q else tg):
+        c.append(("%s,c0=x*%d,rel=99" % (t, 2 if q else 3), 0, "asan"))
+    # (ii) schedules: concurrent sessions x interleavings x EAGAIN answers
+    s5 = "tp=tls,target=a,big=0,scert=%s,ccert=%s" % (cert("san5"), cert("small"))
+    rsa = "tp=tls,target=srv,big=1,names=70,scert=%s,ccert=%s" % (cert("rsa"), cert("rsa"))
+    if q:
+        sched = [
+            ("tp=tcp,target=a,c0=r:ga,rel=0", 1), ("tp=tcp,target=a,c0=r:ga,rel=3,pumpn=256", 1),
+            ("tp=tcp,target=a,c0=r:Xg,rel=2,svc=none", 1), ("tp=tcp,target=srv,c0=x:ag,c1=r:t,rel=0", 1),
+            ("tp=ux,target=b,big=1,c0=r:g,c1=r:k,c2=r:x,rel=99", 1), ("tp=tcp,target=a,c0=r:g,c1=r:m,c2=x:g,rel=3", 0),
+            (s5 + ",c0=r:gl,rel=3", 1), (rsa + ",c0=r:g,c1=r:b,rel=99", 0),
+        ]
+        c += [(p, d, "asan") for p, d in sched]
+    else:
+        sched = [
+            ("tp=tcp,target=a,c0=r:ga,rel=0", 2), ("tp=tcp,target=a,c0=r:ga,rel=3,pumpn=256", 2),
+            ("tp=tcp,target=a,c0=r:Xg,rel=2,svc=none", 2), ("tp=tcp,target=srv,c0=x:ag,c1=r:t,rel=0", 1),
+            ("tp=tcp,target=b,c0=r:ng,rel=3", 2), ("tp=ux,target=srv,c0=r:gg,rel=0,pumpn=256", 2),
+            ("tp=ux,target=b,big=1,c0=r:g,c1=r:k,c2=r:x,rel=99", 1), ("tp=tcp,target=a,c0=r:g,c1=r:m,c2=x:g,rel=3", 1),
+            ("tp=tcp,target=a,c0=r:ga,c1=r:kg,c2=r:xn,rel=3", 0), ("tp=tcp,target=a,c0=r:g,c1=r:k,rel=3", 1),
+            (s5 + ",c0=r:gl,rel=3", 2), (s5 + ",c0=x:kg,c1=r:zg,rel=0", 1),
+            (rsa + ",c0=r:g,c1=r:b,rel=99", 1), (rsa + ",c0=r:bg,rel=3,pumpn=256", 1),
+        ]
+        c += [(p, d, "asan") for p, d in sched]
+        # the deepest level without the sanitizer (three to four times cheaper per execution)
+        c += [("tp=tcp,target=a,c0=r:g,rel=0", 3, "plain"), ("tp=tcp,target=a,c0=r:g,c1=r:g,c2=r:g,rel=99", 2, "plain"),
+              ("tp=tcp,target=a,c0=r:g,c1=r:k,rel=3", 2, "plain")]
     return c
 
 
@@ -253,10 +267,19 @@ def run(chk, tier, jobs, deadline):
             env = harnesses.asan_env() if variant == "asan" else dict(os.environ)
             env["C14_RUN"] = run_root
             res = harnesses.explore(exes[variant], params, bound, left, jobs=jobs, env=env)
+            keep = []
             for v in res.get("violations", []):
+                if v.get("crash") and "watchdog" in v["signature"] and not v.get("reproduced"):
+                    # an execution starved of CPU for 60 s on an overloaded machine: not a verdict, a hole in the coverage
+                    chk.info("watchdog", "an execution was killed by the 60 s watchdog and ran normally when repeated (machine "
+                             "overloaded); it is not counted as explored")
+                    completed_all = False
+                    continue
                 if v.get("crash"):
                     v["signature"] = c14_signature(v)
                     v["crash"] = False
+                keep.append(v)
+            res["violations"] = keep
             harnesses.merge_into(chk, res, PREFIXES, params, build_variant=variant)
             tot["executions"] += res.get("executions", 0)
             tot["states"] += res.get("states", 0)
